@@ -38,8 +38,11 @@ base_model_names_set = {
     'Config', 'construct', 'copy', 'dict', 'from_orm', 'json', 'parse_file', 'parse_obj', 'parse_raw',
     'schema', 'schema_json', 'update_forward_refs', 'validate',
 }
+# Attributes of the metaclasses (type.mro, ABCMeta.register) are found on every class as well: pydantic refuses a field
+# with such a name and dataclasses takes type.mro for the default value of the field
+metaclass_names_set = {'mro', 'register'}
 blacklist_words = frozenset(
-    keywords_set | builtins_set | other_common_names_set | imported_names_set | base_model_names_set
+    keywords_set | builtins_set | other_common_names_set | imported_names_set | base_model_names_set | metaclass_names_set
 )
 ones = ['', 'one', 'two', 'three', 'four', 'five', 'six', 'seven', 'eight', 'nine']
 
